@@ -1,9 +1,7 @@
 /-
   C18, growth round: (1) the whole chain VCF -> load_het_snps -> per-segment BAF as one statement, and "frequencies stay
-  attached" through every option of load_het_snps; (2) one BAF per range, at the position of its range; (3) the command-line
-  glue: the VCF options of `segment`, `call`, `scatter`, `export theta`, `export nexus-ogt` reach `load_het_snps` with their
-  documented meaning; (4) the literals and defaults of the reader and of `load_het_snps` are the ones in the source
-  (Generated/VcfConsts.lean is re-read from /repo on every run).  Helper lemmas: Lemmas/VcfExt.lean.
+  attached" through every option of load_het_snps; (2) one BAF per range, at the position of its range.
+  Helper lemmas: Lemmas/VcfExt.lean.  (Command-line glue: Props/C18Cli.lean; literals of the source: Props/C18Lits.lean.)
 -/
 import CnvVerif.Props.C18
 import CnvVerif.Lemmas.VcfExt
@@ -120,91 +118,8 @@ theorem vcf_to_segment_baf (samples : List String) (tags : List PedTag) (recs : 
     simp [bafFreq]
   simp [specBaf, e, List.filter_filter]
 
-/-! ### the command line -/
-
-/-- for each of the commands that read a VCF -- whatever ids, depth and `-z` are given or left out -- `load_het_snps`
-    receives the documented meaning of the options (`cliDocumented`): the ids as given, minimum depth 20 unless asked
-    otherwise, `zygosity_freq` None unless `-z` (0.25 when bare), and never TumorBoost.  The left side is computed from
-    the tables read off `commands.py` and `cmdutil.py` on every run. -/
-theorem cli_options_reach_load_het_snps (cmd : String) (hc : cmd ∈ Generated.cliVcfCommands) (a : CliVcfArgs) :
-    cliLhsArgs cmd a = some (cliDocumented a) := cliLhsArgs_documented cmd hc a
-
-/-- the commands in question: every `_cmd_*` that calls `load_het_snps` -/
-theorem cli_commands_reading_a_vcf :
-    Generated.cliVcfCommands = ["_cmd_segment", "_cmd_call", "_cmd_scatter", "_cmd_export_theta", "_cmd_export_nbo"] := rfl
-
-/-- the options of the model that follow from a command line: in particular no TumorBoost, so (by
-    `het_rows_stay_attached`) every frequency a command works with is its own record's count / depth -/
-theorem cli_het_options (a : CliVcfArgs) :
-    lhsHetOpts (cliDocumented a) =
-      { sid := nameSel a.sampleId, nid := nameSel a.normalId, minDepth := some (a.minVariantDepth.getD 20),
-        zygFreq := (match a.zygosityFreq with
-          | none => none
-          | some none => some (1/4, 3/4)
-          | some (some f) => some (f, 1 - f)),
-        tumorBoost := false } := by
-  obtain ⟨sid, nid, md, zf⟩ := a
-  rcases zf with _ | _ | f
-  · simp [lhsHetOpts, cliDocumented]
-  · simp [lhsHetOpts, cliDocumented]
-    decide +kernel
-  · simp [lhsHetOpts, cliDocumented]
-
-/-- a bare `-z` asks for the thresholds `load_het_snps` falls back to by itself when the normal carries no genotype -/
-theorem cli_bare_z_is_the_fallback (o : HetOpts) (tb : VTable) (hz : o.zygFreq = none)
-    (hp : tb.paired = true) (hn : normalUntyped tb.rows = true) :
-    effectiveZygFreq o tb = (lhsHetOpts (cliDocumented { zygosityFreq := some none })).zygFreq := by
-  rw [effectiveZygFreq_fallback o tb hz hp hn]
-  decide +kernel
-
-/-! ### defaults and literals are the source's -/
-
-/-- `load_het_snps`: parameters, defaults, the reader call (SOMATIC records skipped, FILTER not consulted, the depth
-    threshold handed on as `min_depth`), the `(zygosity_freq, 1 - zygosity_freq)` thresholds, and the model's defaults -/
-theorem load_het_snps_option_table :
-    Generated.lhsParams = ["vcf_fname", "sample_id", "normal_id", "min_variant_depth", "zygosity_freq", "tumor_boost"] ∧
-    Generated.lhsDefaults = [("sample_id", "None"), ("normal_id", "None"), ("min_variant_depth", "20"),
-      ("zygosity_freq", "None"), ("tumor_boost", "False")] ∧
-    Generated.lhsReadArgs = ["vcf_fname", "'vcf'"] ∧
-    Generated.lhsReadKeywords = [("sample_id", "sample_id"), ("normal_id", "normal_id"),
-      ("min_depth", "min_variant_depth"), ("skip_somatic", "True")] ∧
-    Generated.lhsRetypeArgs = ["zygosity_freq", "1 - zygosity_freq"] ∧
-    ({} : HetOpts).minDepth = some Generated.lhsMinVariantDepthDefault ∧
-    ({} : HetOpts).zygFreq = none ∧ ({} : HetOpts).tumorBoost = false ∧
-    ({} : HetOpts).sid = .unset ∧ ({} : HetOpts).nid = .unset := by
-  refine ⟨rfl, rfl, rfl, rfl, rfl, rfl, rfl, rfl, rfl, rfl⟩
-
-/-- the thresholds used when the normal's genotypes are all 0/0 or missing are the source's 0.25 and 1 − 0.25 -/
-theorem fallback_thresholds_are_the_source (o : HetOpts) (tb : VTable) (hz : o.zygFreq = none)
-    (hp : tb.paired = true) (hn : normalUntyped tb.rows = true) :
-    effectiveZygFreq o tb = some (Generated.lhsFallbackZygFreq, 1 - Generated.lhsFallbackZygFreq) ∧
-    Generated.lhsFallbackCondition =
-      "zygosity_freq is None and 'n_zygosity' in varr and (not varr['n_zygosity'].any())" :=
-  ⟨effectiveZygFreq_fallback o tb hz hp hn, rfl⟩
-
-/-- `skip_reject` drops a record exactly when its FILTER holds something outside the source's accepted set -/
-theorem reject_filter_is_the_source (r : Rec) :
-    rejected r = r.filt.any (fun f => !(Generated.vcfPassFilters.contains f)) := rejected_eq_generated r
-
-/-- the gVCF placeholder that yields no row, the PEDIGREE keys of a declared pair, and the reader's defaults (no depth
-    filter, FILTER not consulted, SOMATIC records kept) are the ones the model uses -/
-theorem reader_literals_are_the_source :
-    Generated.vcfGvcfPlaceholder = "<NON_REF>" ∧ Generated.pedigreeGuardKey = "Derived" ∧
-    Generated.pedigreeTumorKey = "Derived" ∧ Generated.pedigreeNormalKey = "Original" ∧
-    Generated.readVcfDefaults = [("sample_id", "None"), ("normal_id", "None"), ("min_depth", "None"),
-      ("skip_reject", "False"), ("skip_somatic", "False")] ∧
-    ({} : ReadOpts).minDepth = none ∧ ({} : ReadOpts).skipReject = false ∧ ({} : ReadOpts).skipSomatic = false :=
-  ⟨rfl, rfl, rfl, rfl, rfl, rfl, rfl, rfl⟩
-
 /-! ### non-vacuity -/
 
-example : "_cmd_scatter" ∈ Generated.cliVcfCommands := by decide
-example : cliLhsArgs "_cmd_export_nbo" { sampleId := some "T", normalId := some "N", zygosityFreq := some none } =
-    some { sampleId := some "T", normalId := some "N", minVariantDepth := some 20, zygosityFreq := some (1/4),
-           tumorBoost := false } := by decide +kernel
-example : cliLhsArgs "_cmd_call" { minVariantDepth := some 5, zygosityFreq := some (some (3/10)) } =
-    some { sampleId := none, normalId := none, minVariantDepth := some 5, zygosityFreq := some (3/10),
-           tumorBoost := false } := by decide +kernel
 /-- the example records of Props/C18 meet the extent hypothesis of `read_rows_have_extent` -/
 example : ∀ r ∈ exRecs, 1 ≤ r.pos ∧ ∀ a ∈ r.alts, 0 < a.length := by decide +kernel
 /-- … and on the example table (which meets `WFRows`, see Props/C18) the second range's own BAF is 1/4 -/
